@@ -238,3 +238,26 @@ def _(self: SurveyK) -> XNode:
     ensures(implies(bool(self.auto_delete), result.kids[0].attrs["orx:auto-delete"] == self.auto_delete))
     ensures(implies(has_sub, len(result.kids[0].attrs) == (2 if bool(self.submission_url) else 0) + (1 if bool(self.public_key) else 0)
                     + (1 if bool(self.auto_send) else 0) + (1 if bool(self.auto_delete) else 0)))
+
+
+# ---------------------------------------------------------------- namespaces (C01, C19) — bounded: string tokenisation
+
+@contract("Survey.get_nsmap")
+def _(self: Obj("Survey", entity_features=Opt[List[str]], namespaces=Opt[str])) -> Dict[str, str]:
+    properties("C01", "C19", "C11")
+    trusted("str.split / replace chains over the namespaces setting are outside the solvers' reach: the contract is "
+            "checked by bounded native search (small-scope exhaustive token strings), never counted as proved")
+    # C01: every standard prefix stays declared with its own URI (a custom declaration cannot redefine it)
+    ensures(all(k in result and result[k] == v for k, v in STD_NSMAP.items()))
+    # C19: the entities namespace is declared whenever the form declares an entity ...
+    ensures(implies(bool(self.entity_features),
+                    result.get("xmlns:entities") == "http://www.opendatakit.org/xforms/entities"
+                    or DeclaresPrefix(self.namespaces, "entities")))
+    # ... and only then (unless the author declares that prefix in the namespaces setting)
+    ensures(implies(not bool(self.entity_features) and not DeclaresPrefix(self.namespaces, "entities"),
+                    "xmlns:entities" not in result))
+    # C11: each `prefix=uri` token of the namespaces setting is declared with its URI (quotes removed); nothing else is added
+    # (when a prefix is declared twice the property does not say which wins: any of its declarations is accepted)
+    ensures(all(implies(("xmlns:" + p) not in STD_NSMAP, result.get("xmlns:" + p) in DeclaredUris(final_self.namespaces, p))
+                for p, u in FirstDeclarations(self.namespaces)))
+    ensures(all(k in STD_NSMAP or k == "xmlns:entities" or DeclaresPrefix(self.namespaces, k[6:]) for k in result))
